@@ -21,7 +21,9 @@ import compile_check
 
 LEVEL = "proof"
 LEVEL_NOTE = ("DES semantics (structure line fixes pairs, assignment line lays sequences onto it) is the reading of NUPACK's .des used by the oracle and the theorem; "
-              "des_equiv is proved relative to the decidable table condition BlocksOk and the table design designOf, both evaluated on every accepted program (see des_equiv_partial)")
+              "BlocksOk is established by Sys.loadFile by theorem under the name hypotheses DesNamesOk (blocksOk_of_load) and still evaluated on every accepted program; "
+              "one component is closed against the source (des_equiv_component_of_load, via C01); for systems des_equiv is relative to the table design designOf, "
+              "whose agreement with denoteTop (C02) is evaluated on every accepted program (see des_equiv_of_load_partial)")
 replay = compile_check.replay
 
 
